@@ -324,7 +324,7 @@ func (c *FnCtx) evalBuiltin(env *Env, name string, x *ast.CallExpr) Val {
 		return v
 	case "new":
 		t := c.typeOf(x.Args[0])
-		a := c.allocate(st, fmt.Sprint(c.sizeof(t)))
+		a := c.allocateObj(st, t)
 		if isOpaqueStruct(t) {
 			c.initOpaque(env, a, t)
 		} else {
@@ -935,6 +935,12 @@ func (c *FnCtx) applyContract(env *Env, fn *types.Func, ct *Contract, recv *Val,
 					na := c.fresh("alloc")
 					c.declConst(na, "Int")
 					c.facts = append(c.facts, implies(app(">=", r.T, old.alloc), app(">", na, r.T)), app(">=", na, st.alloc))
+					if pt, ok := c.subst(r.Typ).Underlying().(*types.Pointer); ok {
+						if _, isS := c.subst(pt.Elem()).Underlying().(*types.Struct); isS {
+							c.useObjTy()
+							c.facts = append(c.facts, implies(app(">=", r.T, old.alloc), eq(app("objty", r.T), c.typeTag(pt.Elem()))))
+						}
+					}
 					st.alloc = na
 				}
 			}
